@@ -192,8 +192,13 @@ def main(argv=None):
                 P["inapplicable"].append(r["id"] + ": " + r.get("detail", ""))
             else:
                 P["undecided"].append(r)
+        inapp_tags = {jr["tag"] for jr in results if jr.get("inapplicable")}
         for jr in canres:
             ok = (not jr["error"]) and any(r["status"] == "refuted" for r in jr["results"])
+            base_tag = jr["tag"].split("#")[0]
+            if not ok and jr.get("inapplicable") and not jr["error"] and base_tag in inapp_tags:
+                # the function left the encodable subset / its contract no longer fits: reported once, as inapplicable
+                continue
             if not ok:
                 broken.append(f"canary {jr['tag']} was not refuted (engine unsound or blind): {jr.get('error') or jr.get('inapplicable')}")
         P["canaries"] = len(canres)
